@@ -21,7 +21,7 @@ type Exec struct {
 	prop     string
 	dry      int
 	suppress int
-	written  map[*Cell]bool
+	written  map[*Cell]map[int]bool // cell -> top-level struct fields written (-1: the whole cell)
 	cellN    int
 	panics   []panicExit
 	entry    State
@@ -725,17 +725,31 @@ func (f *Frame) cutHeader(n *Node, l *Loop) {
 	}
 	sort.Slice(ws, func(i, j int) bool { return ws[i].ID < ws[j].ID })
 	for _, c := range ws {
-		t := ex.vc.Declare(f.prefix+"hc_"+l.key+"_"+c.Name, c.Sort)
-		ex.assumeRange(t, c.Type, ns.reach)
-		ns.st[c] = t
-	}
-	if ex.dry == 0 {
-		for c := range written {
-			ex.markWritten(c)
+		fields := written[c]
+		if fields[-1] || c.Sort.Role != "struct" {
+			t := ex.vc.Declare(f.prefix+"hc_"+l.key+"_"+c.Name, c.Sort)
+			ex.assumeRange(t, c.Type, ns.reach)
+			ns.st[c] = t
+			continue
 		}
-	} else {
-		for c := range written {
-			ex.markWritten(c)
+		// only the written fields become arbitrary
+		cur := ns.st[c]
+		st := c.Type.Underlying().(*types.Struct)
+		var fis []int
+		for fi := range fields {
+			fis = append(fis, fi)
+		}
+		sort.Ints(fis)
+		for _, fi := range fis {
+			t := ex.vc.Declare(fmt.Sprintf("%shc_%s_%s_%s", f.prefix, l.key, c.Name, st.Field(fi).Name()), c.Sort.Fields[fi].Sort)
+			ex.assumeRange(t, st.Field(fi).Type(), ns.reach)
+			cur = WithField(cur, fi, t)
+		}
+		ns.st[c] = ex.vc.Define(f.prefix+"hc_"+l.key+"_"+c.Name, cur)
+	}
+	for c, fields := range written {
+		for fi := range fields {
+			ex.markWritten(c, fi)
 		}
 	}
 	l.headReach = ns.reach
@@ -809,14 +823,17 @@ func (f *Frame) innermostCut(b *ssa.BasicBlock) *Loop {
 	return nil
 }
 
-func (ex *Exec) markWritten(c *Cell) {
+func (ex *Exec) markWritten(c *Cell, field int) {
 	if ex.written != nil {
-		ex.written[c] = true
+		if ex.written[c] == nil {
+			ex.written[c] = map[int]bool{}
+		}
+		ex.written[c][field] = true
 	}
 }
 
 // dryRun executes the loop body once with arbitrary state and reports the cells written.
-func (f *Frame) dryRun(l *Loop, ns nodeState) map[*Cell]bool {
+func (f *Frame) dryRun(l *Loop, ns nodeState) map[*Cell]map[int]bool {
 	ex := f.ex
 	// checkpoint
 	nItems, nObls := len(ex.vc.items), len(ex.vc.Obls)
@@ -833,7 +850,7 @@ func (f *Frame) dryRun(l *Loop, ns nodeState) map[*Cell]bool {
 	savedWritten := ex.written
 	savedPanics := len(ex.panics)
 	savedRegions := len(ex.regions)
-	ex.written = map[*Cell]bool{}
+	ex.written = map[*Cell]map[int]bool{}
 	ex.dry++
 	dns := nodeState{reach: ns.reach, env: copyEnv(ns.env), names: copyNames(ns.names), st: State{}}
 	for c := range ns.st {
